@@ -82,8 +82,92 @@ def project(mgx: Exec, npx: Exec, order: list[int], want_np=True) -> dict:
         for b in live:
             if np.shares_memory(grads[a], H[b].data):
                 gdata.append([a, b])
-    return {"t": per, "share": share, "np_share": np_share, "gshare": gshare, "gdata": gdata,
+    # caller-owned arrays (inline operands, seeds) must never be modified (C12)
+    mut = sum(1 for a, c in mgx.owned if not np.array_equal(a, c, equal_nan=True))
+    if mgx.last_seed is not None and not np.array_equal(mgx.last_seed, mgx.last_seed_copy):
+        mut += 1
+    return {"t": per, "share": share, "np_share": np_share, "gshare": gshare, "gdata": gdata, "mut": mut,
             "track": bool(_track.TRACK_GRAPH), "guard": bool(_mem.MEM_GUARD)}
+
+
+import types
+import weakref
+
+from mygrad.operation_base import Operation
+
+_SKIP = (str, bytes, int, float, complex, bool, type(None), np.ndarray, np.generic, types.ModuleType, type,
+         types.BuiltinFunctionType, weakref.ReferenceType)
+
+
+def _referents(o):
+    """Strong references that can keep graph objects alive (module globals are deliberately not followed)."""
+    if isinstance(o, types.FunctionType):
+        out = list(o.__closure__ or ())
+        if o.__defaults__:
+            out += list(o.__defaults__)
+        if o.__kwdefaults__:
+            out += list(o.__kwdefaults__.values())
+        w = getattr(o, "__wrapped__", None)
+        if w is not None:
+            out.append(w)
+        return out
+    if isinstance(o, types.MethodType):
+        return [o.__self__, o.__func__]
+    if isinstance(o, types.CellType):
+        try:
+            return [o.cell_contents]
+        except ValueError:
+            return []
+    return gc.get_referents(o)
+
+
+def reachable_graph_objects(roots):
+    """Tensors and Operations reachable through strong references from `roots`."""
+    seen = set()
+    found = {}
+    stack = list(roots)
+    while stack:
+        o = stack.pop()
+        i = id(o)
+        if i in seen:
+            continue
+        seen.add(i)
+        if isinstance(o, (mg.Tensor, Operation)):
+            found[i] = o
+        for r in _referents(o):
+            if isinstance(r, _SKIP) or id(r) in seen:
+                continue
+            if isinstance(r, (mg.Tensor, Operation, tuple, list, dict, set, frozenset, types.FunctionType,
+                              types.MethodType, types.CellType)):
+                stack.append(r)
+    return found
+
+
+class LeakWatch:
+    """Weak references to every Tensor / Operation ever reachable from the handles; `leaked()` = those still alive
+    although no longer reachable from any handle (C07: everything unreferenced is freed by refcount alone)."""
+
+    def __init__(self):
+        self.refs = {}
+
+    def update_and_count(self, H) -> int:
+        cur = reachable_graph_objects(list(H.values()))
+        for i, o in cur.items():
+            if i not in self.refs:
+                try:
+                    self.refs[i] = weakref.ref(o)
+                except TypeError:
+                    pass
+        leaked = 0
+        for i, r in list(self.refs.items()):
+            o = r()
+            if o is None:
+                del self.refs[i]
+            elif i not in cur:
+                leaked += 1
+            del o
+        cur.clear()
+        return leaked
 
 
 def _step(x: Exec, s: dict):
@@ -106,6 +190,7 @@ def run_program(prog: list[dict]) -> list[dict] | None:
     gc.disable()
     try:
         mgx, npx = Exec("mg"), Exec("np")
+        watch = LeakWatch()
         order: list[int] = []
         lines = []
         for s in prog:
@@ -124,10 +209,11 @@ def run_program(prog: list[dict]) -> list[dict] | None:
                             npx.H[h][...] = a
                 elif s["k"] in ("op", "leaf") and s.get("h") in npx.H:
                     del npx.H[s["h"]]
-            if "h" in s and s["k"] in ("leaf", "op") and s["h"] not in order and s["h"] in mgx.H:
+            if "h" in s and s["k"] in ("leaf", "op", "copy") and s["h"] not in order and s["h"] in mgx.H:
                 order.append(s["h"])
             try:
                 obs = project(mgx, npx, order)
+                obs["leak"] = watch.update_and_count(mgx.H)
             except OutOfModel:
                 return None
             lines.append({"stmt": s, "obs": obs, "exc": e_mg, "exc_np": e_np})
